@@ -483,11 +483,43 @@ def is_sub(t, want):
     return any(s == want for s in subterms(t))
 
 
+def verifier_dispatch(ctx):
+    """the bundled verifiers dispatch on input.alg - the algorithm JwsValidationItem::verify read from the protected header -
+    and on nothing else: ES256 -> P-256, ES256K -> secp256k1, EdDSA -> Ed25519, every other algorithm is refused"""
+    prog, info = load(['identity_ecdsa_verifier', 'identity_eddsa_verifier'], src_only=['identity_jose'])
+    ctx.extra['mir_verifiers'] = info
+    A = Auditor(ctx, prog)
+    algs = prog.enums['JwsAlgorithm']
+    vi = prog.structs['VerificationInput']
+    WANT = {r'Secp256R1Verifier::verify$': 'ES256', r'Secp256K1Verifier::verify$': 'ES256K', r'Ed25519Verifier::verify$': 'EdDSA'}
+    RB = {'scenario': 'verifier_dispatch'}
+    for label, rx in (('EcDSAJwsVerifier', r'ecdsa_jws_verifier::<impl at [^>]*>::verify$'), ('EdDSAJwsVerifier', r'eddsa_verifier::<impl at [^>]*>::verify$')):
+        f = prog.one(rx)
+        paths, ex = A.paths(f)
+        d = ex.discr_var(('field', ('leaf', 'input'), vi.index('alg'), ''))
+
+        def r_disp(p, d=d):
+            if p.kind != 'return':
+                return 'panic ' + p.msg
+            cs = [c for c in p.calls if any(re.search(k, c.name) for k in WANT)]
+            if p.is_ok() and not (len(cs) == 1 and strip(p.term()) == cs[0].ret):
+                return 'reported verified without being the result of exactly one scheme verifier'
+            for c in cs:
+                alg = [v for k, v in WANT.items() if re.search(k, c.name)][0]
+                if not p.implies(d == z3.BitVecVal(algs[alg], 64)):
+                    return '%s consulted although input.alg is not established to be %s' % (c.name.split('::')[-2], alg)
+                if not mentions(c.args, r'^input$') or not mentions(c.args, r'^public_key$'):
+                    return 'scheme verifier not given the input and the caller\'s key'
+            return None
+        A.require('%s/scheme-selected-by-input-alg-only' % label, paths, r_disp, replay=RB)
+
+
 def main(ctx):
     prog, info = load(CRATES)
     ctx.extra['mir'] = info
     ctx.bounds.append('audit: all paths of the listed acyclic orchestrators, callee results unconstrained (uninterpreted)')
-    ctx.outside += ['serde parsing of headers/envelopes', 'Ed25519/ES256/ES256K verifiers (cryptography)',
+    ctx.outside += ['serde parsing of headers/envelopes', 'the cryptography inside the Ed25519/ES256/ES256K verifiers (their dispatch on input.alg is audited)',
                     'that base64url decoding and create_message compute the right bytes is the K part (thorough tier)']
     ctx.assumptions.append('callees not inlined are uninterpreted functions of their arguments; pure callees are functionally consistent')
     guarded(ctx, 'jws binding audit', 'M', lambda: run(ctx, prog))
+    guarded(ctx, 'verifier dispatch', 'M', lambda: verifier_dispatch(ctx))
